@@ -9,6 +9,7 @@ import (
 	"go/constant"
 	"go/token"
 	"go/types"
+	"math"
 	"sort"
 	"strings"
 
@@ -535,6 +536,18 @@ func runExp(m *model.Model, s *ob.Set) {
 			if isMin && ((op == token.LEQ && m.EdgeDominates(gb, 1, at)) || (op == token.GTR && m.EdgeDominates(gb, 0, at))) {
 				lo = true
 			}
+			// the limits are the extremes of int32, so for the int32 exponent field `== MaxExp` says
+			// the same as `>= MaxExp` (and `== MinExp` the same as `<= MinExp`)
+			if bt, okb := x.Type().Underlying().(*types.Basic); okb && bt.Kind() == types.Int32 {
+				atMax := isMax && constant.Compare(kc.Value, token.EQL, constant.MakeInt64(math.MaxInt32))
+				atMin := isMin && constant.Compare(kc.Value, token.EQL, constant.MakeInt64(math.MinInt32))
+				if atMax && ((op == token.EQL && m.EdgeDominates(gb, 1, at)) || (op == token.NEQ && m.EdgeDominates(gb, 0, at))) {
+					hi = true
+				}
+				if atMin && ((op == token.EQL && m.EdgeDominates(gb, 1, at)) || (op == token.NEQ && m.EdgeDominates(gb, 0, at))) {
+					lo = true
+				}
+			}
 		}
 		return lo, hi
 	}
@@ -757,6 +770,13 @@ func sliceBase(v ssa.Value) (base ssa.Value, low ssa.Value) {
 			v = x.X
 		case *ssa.ChangeType:
 			v = x.X
+		case *ssa.UnOp:
+			// *z for a parameter z of type *dec (a method given a pointer receiver): the buffer is
+			// the caller's, like a dec parameter
+			if p, ok := x.X.(*ssa.Parameter); ok && x.Op == token.MUL {
+				return p, low
+			}
+			return v, low
 		default:
 			return v, low
 		}
@@ -891,6 +911,7 @@ func structEq(a, b ssa.Value, depth int) bool {
 }
 
 func runOverlap(m *model.Model, s *ob.Set) {
+	runOverlapDir(m, s)
 	const R = "OVERLAP"
 	elementwise := map[string]bool{"add10VV": true, "sub10VV": true, "add10VW": true, "sub10VW": true, "mulAdd10VWW": true, "addMul10VVW": true, "div10VWW": true}
 	inPlaceSafe := map[string]bool{"dec.add": true, "dec.sub": true, "dec.shl": true, "dec.shr": true, "dec.mulAddWW": true, "dec.divW": true, "dec.set": true, "dec.norm": true, "dec.setWord": true, "dec.make": true}
@@ -1698,6 +1719,22 @@ func runDecNorm(m *model.Model, s *ob.Set) {
 		case *ssa.UnOp:
 			if lf, ok := m.LoadOfDecField(x); ok && lf.Field == m.F.Mant {
 				return true, ""
+			}
+			// a local whose address is taken (passed to a pointer-receiver method): the value it
+			// holds is the one last stored in front of the load in the same block
+			if al, ok := x.X.(*ssa.Alloc); ok && x.Op == token.MUL {
+				var last *ssa.Store
+				for _, in := range x.Block().Instrs {
+					if in == ssa.Instruction(x) {
+						break
+					}
+					if st, ok := in.(*ssa.Store); ok && st.Addr == ssa.Value(al) {
+						last = st
+					}
+				}
+				if last != nil {
+					return okVal(last.Val, d-1)
+				}
 			}
 		}
 		return false, fmt.Sprintf("%T", v)
